@@ -470,6 +470,10 @@ def job_flag(job, cls):
                       bound="nx=4, 2 steps", replay=(replay_flag, {"cls": cls}))
 
 
+# concrete replays run on the real code when the changed code uses something the engine does not model (harness.finish)
+FALLBACK = [(replay_rows, {}), (replay_rows, {"cls": "IdealReservoir"}), (replay_rows, {"schedule": True}), (replay_rows, {"tdtype": "i8"}), (replay_tolerance, {}), (replay_flag, {})]
+
+
 def jobs(tier):
     out = []
     nxs = (3, 4, 5) if tier == "quick" else (3, 4, 5, 6, 8, 10)
